@@ -741,6 +741,23 @@ impl World {
         }
     }
 
+    /// like `exec`, for a message given as JSON text
+    pub fn exec_json(&mut self, sender: &str, contract: &Addr, json: &serde_json::Value, fault_at: Option<usize>) -> TxRes {
+        let msg = cosmwasm_std::CosmosMsg::Wasm(cosmwasm_std::WasmMsg::Execute {
+            contract_addr: contract.to_string(),
+            msg: cosmwasm_std::Binary(serde_json::to_vec(json).unwrap()),
+            funds: vec![],
+        });
+        instr::begin_tx(fault_at);
+        let r = catch_unwind(AssertUnwindSafe(|| self.app.execute(Addr::unchecked(sender), msg)));
+        let TxInstr { n_msgs, fault_hit, xfers, msgs } = instr::end_tx();
+        match r {
+            Ok(Ok(resp)) => TxRes { ok: true, err: String::new(), panicked: false, n_msgs, fault_hit, xfers, msgs, events: resp.events },
+            Ok(Err(e)) => TxRes { ok: false, err: e.root_cause().to_string(), panicked: false, n_msgs, fault_hit, xfers: vec![], msgs, events: vec![] },
+            Err(_) => TxRes { ok: false, err: "PANIC".into(), panicked: true, n_msgs, fault_hit, xfers: vec![], msgs, events: vec![] },
+        }
+    }
+
     pub fn query<T: DeserializeOwned, M: Serialize>(&self, contract: &Addr, msg: &M) -> Result<T, String> {
         match catch_unwind(AssertUnwindSafe(|| {
             self.app.wrap().query_wasm_smart::<T>(contract.clone(), msg)
